@@ -665,6 +665,12 @@ func genC01(tier string, seed int64) (*Family, error) {
 			name, pair[0], pair[1], pair[0]+pair[1], strings.ReplaceAll(fmt.Sprintf("%q", pair[0]+pair[1]), "\"", "\\\""))
 		fam.Instances = append(fam.Instances, Instance{Func: name, Stratum: "literals", Desc: fmt.Sprintf("%q + %q", pair[0], pair[1]), Expect: []string{"executed"}})
 	}
+	// concrete strings that look like numbers: the four ordering operators compare bytes, never values
+	for k, pair := range [][2]string{{"10", "9"}, {"100", "20"}, {"+5", "3"}, {"-5", "-10"}, {"07", "7"}, {"1e3", "999"}, {"abc", "abd"}, {" 9", "10"}} {
+		name := fmt.Sprintf("C_strorder_%d", k)
+		fmt.Fprintf(&b, "\nfunc %s() {\n\tdc := context.NewDataContext()\n\ts, t := %q, %q\n\tdc.Add(\"s\", s)\n\tdc.Add(\"t\", t)\n\tfor _, op := range []string{\"<\", \"<=\", \">\", \">=\", \"==\", \"!=\"} {\n\t\tcompiled, err, res := run(dc, \"rule \\\"r\\\" begin\\n return s \"+op+\" t\\nend\")\n\t\tvnd.Assert(compiled && err == nil, \"string comparison evaluates\")\n\t\tgot, ok := res[\"r\"].(bool)\n\t\twant := false\n\t\tswitch op {\n\t\tcase \"<\":\n\t\t\twant = s < t\n\t\tcase \"<=\":\n\t\t\twant = s <= t\n\t\tcase \">\":\n\t\t\twant = s > t\n\t\tcase \">=\":\n\t\t\twant = s >= t\n\t\tcase \"==\":\n\t\t\twant = s == t\n\t\tcase \"!=\":\n\t\t\twant = s != t\n\t\t}\n\t\tvnd.Assert(ok && got == want, \"strings are ordered byte-wise\")\n\t}\n\tvnd.Reach(\"executed\")\n}\n", name, pair[0], pair[1])
+		fam.Instances = append(fam.Instances, Instance{Func: name, Stratum: "literals", Desc: fmt.Sprintf("%q against %q, six comparison operators", pair[0], pair[1]), Expect: []string{"executed"}})
+	}
 	// rule locals as operands
 	{
 		e := &expr{op: "-", l: mkVar("x", "int64"), r: mkVar("y", "int16")}
